@@ -25,7 +25,7 @@ impl Prop for C02 {
     }
     fn required_classes(&self, _tier: Tier) -> Vec<String> {
         let mut v = required_ad_classes();
-        for s in ["gradient2:fast-path", "gradient2:lookup-path", "gradient2:absent-name", "downcast:Dual-from-Dual2", "cross-type:Dual-vs-Dual2", "leaf:nonzero-initial-dual2"] {
+        for s in ["route:Number-with-bare-floats", "route:Number-with-wrapped-floats", "gradient2:fast-path", "gradient2:lookup-path", "gradient2:absent-name", "downcast:Dual-from-Dual2", "cross-type:Dual-vs-Dual2", "leaf:nonzero-initial-dual2"] {
             v.push(s.to_string());
         }
         v
@@ -106,6 +106,41 @@ impl Prop for C02 {
             Ok(r) => r,
             Err(_) => return,
         };
+        // the same formula through the generic Number container (bare and container-wrapped floats)
+        {
+            use rateslib::dual::Number;
+            let nl: Vec<Number> = leaves2.iter().map(|l| Number::Dual2(l.clone())).collect();
+            for (wrap, label) in [(false, "Number-with-bare-floats"), (true, "Number-with-wrapped-floats")] {
+                ctx.eval(1);
+                ctx.asserted(1);
+                ctx.class(&format!("route:{}", label));
+                match crate::sup::guarded(|| eval_number(&e, &nl, wrap)) {
+                    crate::sup::Caught::Ok(Number::Dual2(d)) => {
+                        let same = |a: f64, b: f64| a.to_bits() == b.to_bits() || (a.is_nan() && b.is_nan()) || a == b;
+                        let ok = same(d.real(), root2.real()) && match d.to_rnum() {
+                            Ok(x) => x.names().union(&rr.names()).all(|n| same(x.gd(n), rr.gd(n)) && x.names().union(&rr.names()).all(|m| same(x.hd(n, m), rr.hd(n, m)))),
+                            _ => false,
+                        };
+                        if !ok {
+                            ctx.violation(&format!("C02|{}-differs", label), json!({"case": describe_case(&e, &specs), "concrete_type_result": root2.describe(), "container_result": d.describe()}));
+                            return;
+                        }
+                    }
+                    crate::sup::Caught::Ok(_) => {
+                        ctx.violation(&format!("C02|{}-wrong-kind", label), json!({"case": describe_case(&e, &specs)}));
+                        return;
+                    }
+                    crate::sup::Caught::Panic { loc, msg } => {
+                        if crate::sup::is_harness_location(&loc) {
+                            ctx.harness_error(format!("{} {}", loc, msg));
+                        } else {
+                            ctx.violation(&format!("C02|panic|{}|{}", label, crate::sup::short_loc(&loc)), json!({"case": describe_case(&e, &specs), "message": msg}));
+                        }
+                        return;
+                    }
+                }
+            }
+        }
         let stored: Vec<String> = root2.vars().iter().cloned().collect();
 
         // (a) gradient2 on the stored list (fast path), a permutation / subset / with absent names (lookup path)
